@@ -23,6 +23,10 @@ congestion collapse, any number of T3 expiries), ALL oracle values:
   ⌈bytes / fragment size⌉ + messages + 1 rounds, each round costing at most one retransmission timeout in the
   implementation (C19 bounds that by `rtoMax`).
 
+* and the same with a peer whose answers are earned (`C02_recovers_faithful`): every round starts with a T3 expiry, and the
+  SACK covers only what that peer — which keeps nothing beyond its cumulative point except what it gap-acked — can have:
+  gap-acked before, skipped by the FORWARD-TSN of this gather, or put on the wire by this gather.
+
 What they do NOT cover (still exploration level: the e2e `transfer` scenarios and their predicate `P_C02`): that timers
 really fire and the writer goroutine really runs (Go scheduling, `awakeWriteLoop`), the RECEIVER half (that the peer
 accepts the probe / the gap-filling chunk at zero window and answers with such a SACK), the composition over a network that
@@ -313,5 +317,52 @@ example :
     let fin := run (init cfg 100 65536) (ops ++ .t3 :: drain (fun s => List.replicate s.pending.length 0) 65536 5 (t3 s))
     (s.inflight.length, s.pending.length, s.cwnd, s.rwnd) = (3, 4, 1200#32, 0#32) ∧
     (fin.inflight.length, fin.pending.length, fin.penBytes + fin.infBytes, bufOf fin 1) = (0, 0, 0, 0) := by decide
+
+/-- **Recovery against a forgetful peer** — the drain argument with a peer's answer that is *earned*. Schedule of one round
+(`recoverOps`): a T3 expiry; one gather; a SACK whose cumulative TSN covers exactly the longest prefix of the in-flight queue
+the peer can have: chunks it had gap-acked before, chunks the FORWARD-TSN of this gather tells it to skip, chunks this gather
+put on the wire (`reach` / `faithfulCum`) — a peer that keeps NOTHING else beyond its cumulative point, so whatever was sent
+above a hole is lost again and must be retransmitted. From ANY reachable established state (partial reliability negotiated,
+`TsnOk`), for any window the SACKs advertise (0 included) and any `peek` choice, `n ≥ in-flight + pending chunks` such rounds
+leave both queues empty and `BufferedAmount()` = 0. Every round makes progress because: T3 flags the earliest outstanding
+chunk unless it is acked or abandoned (`C02_t3_marks_all`); flagged, it is retransmitted whatever the windows are
+(`C02_rtx_progress_partial`, cwnd ≥ MTU right after T3); abandoned, the FORWARD-TSN that skips it is sent again after every
+T3 (`C07_skip_maximal`, `C07_forward_flag`); with nothing in flight the probe goes out (`C02_probe_when_blocked`); and the
+SACK pops what it covers (`C02_ack_progress`). -/
+theorem C02_recovers_faithful (cfg : Cfg) (tsn peerRwnd : BitVec 32) (hc : CfgOk cfg) (hf : CfgFit cfg) (hpr : cfg.prEnabled = true)
+    (ops : List Op) (hok : TsnOk (init cfg tsn peerRwnd) ops) (pick : St → List Nat) (hp : PickOk pick) (arwnd : BitVec 32) (n : Nat)
+    (hest : (run (init cfg tsn peerRwnd) ops).established = true)
+    (hsm : (run (init cfg tsn peerRwnd) ops).inflight.length + (run (init cfg tsn peerRwnd) ops).pending.length < 2^31)
+    (hn : (run (init cfg tsn peerRwnd) ops).inflight.length + (run (init cfg tsn peerRwnd) ops).pending.length ≤ n) :
+    (run (init cfg tsn peerRwnd) (ops ++ recoverOps pick arwnd n (run (init cfg tsn peerRwnd) ops))).inflight = [] ∧
+    (run (init cfg tsn peerRwnd) (ops ++ recoverOps pick arwnd n (run (init cfg tsn peerRwnd) ops))).pending = [] ∧
+    (run (init cfg tsn peerRwnd) (ops ++ recoverOps pick arwnd n (run (init cfg tsn peerRwnd) ops))).penBytes +
+      (run (init cfg tsn peerRwnd) (ops ++ recoverOps pick arwnd n (run (init cfg tsn peerRwnd) ops))).infBytes = 0 := by
+  have hl := live cfg tsn peerRwnd hc hf ops hest hsm
+  have hrec : Rec (run (init cfg tsn peerRwnd) ops) :=
+    ⟨hl, run_adv _ ops (init_seq cfg tsn peerRwnd) (init_win cfg tsn peerRwnd hc) hpr (init_adv cfg tsn peerRwnd) hok,
+     run_inffit _ ops (init_seq cfg tsn peerRwnd) (init_win cfg tsn peerRwnd hc) (init_inffit cfg tsn peerRwnd) hok,
+     by rw [run_cfg _ ops hc]; exact hpr⟩
+  obtain ⟨d1, d2, d3⟩ := roundsF_drain pick arwnd hp n _ hrec hn
+  have hrun : run (init cfg tsn peerRwnd) (ops ++ recoverOps pick arwnd n (run (init cfg tsn peerRwnd) ops)) =
+      roundsF pick arwnd n (run (init cfg tsn peerRwnd) ops) := by
+    rw [run_append]; exact run_recoverOps pick arwnd n _
+  exact ⟨by rw [hrun]; exact d2, by rw [hrun]; exact d3, by rw [hrun, d1.live.core.pen, d1.live.core.inf, d2, d3]; simp [sumLen]⟩
+
+/-- non-vacuity: an abandoned message (TSN 100), three reliable chunks (101..103) of which the last was gap-acked, one more
+message pending, peer window closed; nothing else ever reached the peer. Round 1: only the FORWARD-TSN for 100 (101 is flagged
+but not at loop index 0 and the window is closed) → cumulative TSN 100; round 2: 101 goes out as the probe → 101; round 3: 102
+retransmitted, 103 was gap-acked → 103; round 4: the pending chunk → 104. `in-flight + pending = 5` rounds are allowed. -/
+example :
+    let cfg : Cfg := { mtu := 1200, maxPayload := 1172 }
+    let ops := [Op.openS 1 false 0 0 0, .openS 2 false 1 0 0, .write 2 53 10, .write 1 53 3000, .gather freeOracle [0, 0, 0, 0],
+      .sack 99 0 [(4, 4)] [], .write 1 53 50]
+    let s := run (init cfg 100 65536) ops
+    let pick := fun (s : St) => List.replicate s.pending.length 0
+    TsnOk (init cfg 100 65536) ops ∧ (s.inflight.length, s.pending.length, s.rwnd) = (4, 1, 0#32) ∧
+    (roundsF pick 0 1 s).cumAck = 100#32 ∧ (roundsF pick 0 2 s).cumAck = 101#32 ∧ (roundsF pick 0 3 s).cumAck = 103#32 ∧
+    (roundsF pick 0 4 s).cumAck = 104#32 ∧
+    ((run (init cfg 100 65536) (ops ++ recoverOps pick 0 5 s)).inflight.length,
+     (run (init cfg 100 65536) (ops ++ recoverOps pick 0 5 s)).pending.length) = (0, 0) := by decide
 
 end C02
